@@ -21,6 +21,7 @@ func init() {
 		Level: "exploration",
 		Rule: "type universes in LLVM's data model (unique names, only structs named): 3-8 identified structs (opaque, packed, empty, mutually recursive through pointers/arrays/function types) plus PRNG literal types of depth<=3 over all kinds and every one-attribute neighbour of each; each universe is built twice through types.New* and a third time by parsing its printed form. " +
 			"Checked over all ordered pairs: Equal agrees with the reference identity (canonical descriptor string), is reflexive and symmetric; over all triples (universes<=70 types, sampled beyond): transitive; every one-attribute neighbour is unequal; Equal(t, parse(print t)). " +
+			"number spellings: array and vector lengths (up to 2^64-1), address spaces (up to 2^24-1) and integer widths in decimal, zero-padded decimal and u0x spellings must give the type LLVM reads (expected spelling written by the monitor from the number). edit-after-query: a struct named or given its body, a signature made variadic, an address space changed after Equal/String were called: equality and spelling of the types built on them follow the edit. " +
 			"non-trivial = an ordered pair of distinct descriptors, or a pair of separately constructed objects of the same descriptor; distinct by (universe seed, i, j)",
 		Gen:           genC16,
 		MinNontrivial: 10000,
@@ -645,7 +646,7 @@ func c16HexNumbers(text string, rng *rand.Rand) string {
 // u0x upper/lower case) must give the type LLVM reads: equal to the type built
 // from the number, and unequal to the types of the neighbouring numbers.
 func c16NumberSpellings(r *fw.Rec) {
-	nums := []uint64{0, 1, 7, 9, 10, 15, 16, 17, 31, 32, 99, 100, 255, 256, 4096, 65535, 65536, 65537, 1 << 20, 1<<24 - 1, 1 << 31, 1<<32 + 1, 1<<63 - 1, 1 << 63, 1<<64 - 1}
+	nums := []uint64{0, 1, 7, 8, 9, 10, 15, 16, 17, 31, 32, 64, 77, 99, 100, 255, 256, 4096, 65535, 65536, 65537, 1 << 20, 1<<24 - 1, 1 << 31, 1<<32 + 1, 1<<63 - 1, 1 << 63, 1<<64 - 1}
 	spell := func(n uint64) []string {
 		return []string{fmt.Sprint(n), fmt.Sprintf("0%d", n), fmt.Sprintf("u0x%X", n), fmt.Sprintf("u0x%x", n), fmt.Sprintf("u0x0%X", n)}
 	}
@@ -664,6 +665,11 @@ func c16NumberSpellings(r *fw.Rec) {
 				sv := types.NewVector(n, types.I8)
 				sv.Scalable = true
 				probes = append(probes, probe{fmt.Sprintf("<vscale x %s x i8>", sp), sv, n, "svec"})
+			}
+			if n > 0 && n <= 1<<20 && !strings.HasPrefix(sp, "u0x") {
+				// integer widths are read in decimal only (i010 is i10)
+				probes = append(probes, probe{"i" + sp, types.NewInt(n), n, "int"})
+				probes = append(probes, probe{fmt.Sprintf("[2 x i%s]", sp), types.NewArray(2, types.NewInt(n)), n, "intarr"})
 			}
 			if n < 1<<24 {
 				// (LLVM's address spaces have 24 bits)
@@ -722,6 +728,10 @@ func c16NumberSpellings(r *fw.Rec) {
 			wantStr = fmt.Sprintf("<%d x i8>", p.n)
 		case "svec":
 			wantStr = fmt.Sprintf("<vscale x %d x i8>", p.n)
+		case "int":
+			wantStr = fmt.Sprintf("i%d", p.n)
+		case "intarr":
+			wantStr = fmt.Sprintf("[2 x i%d]", p.n)
 		case "ptr":
 			wantStr = fmt.Sprintf("i8 addrspace(%d)*", p.n)
 			if p.n == 0 {
